@@ -258,6 +258,15 @@ impl DiscoveryDB {
     if active_disposal {
       self.remove_topic_reader_with_prefix(guid_prefix);
       self.remove_topic_writer_with_prefix(guid_prefix);
+      // The participant announced that it is leaving. What the attic still holds of
+      // it from an earlier time-out must not come back with a later participant of
+      // that prefix either.
+      self
+        .external_topic_readers_attic
+        .retain(|guid, _| guid.prefix != guid_prefix);
+      self
+        .external_topic_writers_attic
+        .retain(|guid, _| guid.prefix != guid_prefix);
     } else {
       // move to attic
       move_by_guid_prefix(
